@@ -288,6 +288,14 @@ def run_case(seed):
             def pf_sx(pf):
                 return [c02.gheader_sx(pf), [[c02.lvboxes_sx(pf, lv), gen.level_to_sx(pf, lv), c02.cellh_sx(pf, lv)[3],
                                               c02.cellh_sx(pf, lv)[4]] for lv in range(pf.nlevels)]]
+            if k == 0:
+                for which, pfx in (('first', pf1), ('second', pf2)):
+                    stg, gb = model.call('goodb', pf_sx(pfx))
+                    count(f"hypothesis 'good' of the tool theorem holds={stg == 'ok' and gb == 1}")
+                    if not (stg == 'ok' and gb == 1):
+                        out['disagreements'].append(dict(desc, kind='hypothesis', what=f"the {which} generated plotfile does not satisfy 'good' "
+                                                         "(goodb = false): the instance of theorem C06_tool is not covered by the theorem",
+                                                         correspondence='Writers.GoodB.goodb'))
             st2, sp = model.call('combine_spec', [pf_sx(pf1), pf_sx(pf2), [x.encode() for x in n1], [x.encode() for x in n2]])
             if st2 != 'ok':
                 out['disagreements'].append(dict(desc, kind='spec', what='the specification entry refuses the abstract plotfiles',
